@@ -22,7 +22,7 @@ import (
 
 var c03Modes = []string{"", "prefer_ocsp", "prefer_crl", "ocsp_only", "crl_only", "disabled"}
 var c03OCSP = []string{"no-aia", "good", "revoked", "unavailable", "unusable-answer"}
-var c03CRL = []string{"none-known", "listed", "not-listed", "cdp-unavailable", "cdp-unavailable+listed-in-configured-file"}
+var c03CRL = []string{"none-known", "listed", "not-listed", "cdp-unavailable", "cdp-unavailable+listed-in-configured-file", "listed-in-configured-url"}
 var c03Chains = []string{"leaf-ca", "leaf-sub-root", "two-chains"}
 
 type c03Cell struct {
@@ -46,6 +46,7 @@ func (c c03Cell) String() string {
 const (
 	c03OCSPURL = "http://ocsp.test/c03"
 	c03CRLURL  = "http://crl.test/c03.crl"
+	c03CfgURL  = "http://crl.test/c03-configured.crl"
 )
 
 type c03Cast struct {
@@ -74,7 +75,7 @@ func (c *c03Cast) leaf(cell c03Cell) *world.Ident {
 	if cell.OCSP != "no-aia" {
 		ocspURLs = []string{c03OCSPURL}
 	}
-	if cell.CRL != "none-known" {
+	if cell.CRL != "none-known" && cell.CRL != "listed-in-configured-url" {
 		cdp = []string{c03CRLURL}
 	}
 	key := fmt.Sprintf("%v|%v|%s", ocspURLs, cdp, cell.Chain)
@@ -152,7 +153,12 @@ func (c *c03Cast) run(cell c03Cell) (o c03Obs) {
 			opt.CRL.CRLFiles = []string{f}
 			opt.CRL.TrustedSignatureCertsFiles = []string{WritePEM(files, "iss.pem", iss.Cert)}
 		}
-		if (cell.Mode == "disabled" || cell.Mode == "ocsp_only") && cell.CRL != "cdp-unavailable+listed-in-configured-file" {
+		if cell.CRL == "listed-in-configured-url" {
+			net.Serve(c03CfgURL, "configured", world.SimpleCRL(iss, 1, 401).DER())
+			opt.CRL.CRLUrls = []string{c03CfgURL}
+			opt.CRL.TrustedSignatureCertsFiles = []string{WritePEM(files, "iss.pem", iss.Cert)}
+		}
+		if (cell.Mode == "disabled" || cell.Mode == "ocsp_only") && cell.CRL != "cdp-unavailable+listed-in-configured-file" && cell.CRL != "listed-in-configured-url" {
 			opt.CRL = nil // these modes must work without any crl_config
 		}
 		w := NewTW(opt)
@@ -164,7 +170,7 @@ func (c *c03Cast) run(cell c03Cell) (o c03Obs) {
 		o.Verdict = w.Handshake(c.chains(cell, leaf))
 		vsched.Drain()
 		o.OCSPHits = net.HitsFor(c03OCSPURL)
-		o.CRLHits = net.HitsFor(c03CRLURL)
+		o.CRLHits = net.HitsFor(c03CRLURL) + net.HitsFor(c03CfgURL)
 		ents, _ := os.ReadDir(dir)
 		o.DirEntries = len(ents)
 		if err := w.Cleanup(); err != nil {
@@ -182,7 +188,7 @@ func c03Expect(cell c03Cell) (reject bool, ocspOn, crlOn bool) {
 	ocspOn = mode == "prefer_ocsp" || mode == "prefer_crl" || mode == "ocsp_only"
 	crlOn = mode == "prefer_ocsp" || mode == "prefer_crl" || mode == "crl_only"
 	ocspBad := cell.OCSP == "revoked" || ((cell.OCSP == "unavailable" || cell.OCSP == "unusable-answer") && cell.AIAStrict)
-	crlBad := cell.CRL == "listed" || cell.CRL == "cdp-unavailable+listed-in-configured-file" || (cell.CRL == "cdp-unavailable" && cell.CDPStrict)
+	crlBad := cell.CRL == "listed" || cell.CRL == "cdp-unavailable+listed-in-configured-file" || cell.CRL == "listed-in-configured-url" || (cell.CRL == "cdp-unavailable" && cell.CDPStrict)
 	reject = (ocspOn && ocspBad) || (crlOn && crlBad)
 	return
 }
@@ -191,7 +197,7 @@ func c03Expect(cell c03Cell) (reject bool, ocspOn, crlOn bool) {
 func RunC03(tier string, args []string) int {
 	chk := fw.NewCheck("C03", tier, "model_checking")
 	chk.Assumptions = []string{
-		"finite truth table enumerated completely: mode(6) x OCSP outcome(5: no AIA, good, revoked, unreachable, reachable but unusable answer) x aia_strict(2) x CRL outcome(5) x cdp_strict(2) x backend(2) x chain shape(3) = 3600 cells; each cell = fresh Provision -> one VerifyClientCertificate -> Cleanup on the real caddy module",
+		"finite truth table enumerated completely: mode(6) x OCSP outcome(5: no AIA, good, revoked, unreachable, reachable but unusable answer) x aia_strict(2) x CRL outcome(6: none known, listed, not listed, CDP unavailable, CDP unavailable + listed in a configured file, listed in a configured crl_url) x cdp_strict(2) x backend(2) x chain shape(3) = 4320 cells; each cell = fresh Provision -> one VerifyClientCertificate -> Cleanup on the real caddy module",
 		"oracle: reject <=> (OCSP enabled and (revoked or, under aia_strict, no authentic answer)) or (CRL enabled and (listed or strict-unavailable)); side-effect monitors on the scripted origin and the work_dir",
 		"empty verifiedChains are not judged (the TLS stack never passes them in require-and-verify mode)",
 	}
@@ -244,7 +250,7 @@ func RunC03(tier string, args []string) int {
 								if !ocspOn && o.OCSPHits > 0 {
 									chk.Violation("C03|ocsp-contacted-though-disabled|mode="+modeName, fmt.Sprintf("cell %s: %d OCSP requests although the mode disables OCSP", cell, o.OCSPHits), cell)
 								}
-								if !crlOn && (o.CRLHits > 0 || o.DirEntries > 0) && cell.CRL != "cdp-unavailable+listed-in-configured-file" {
+								if !crlOn && (o.CRLHits > 0 || o.DirEntries > 0) {
 									chk.Violation("C03|crl-touched-though-disabled|mode="+modeName, fmt.Sprintf("cell %s: %d CRL fetches, %d work_dir entries although the mode disables CRL checking", cell, o.CRLHits, o.DirEntries), cell)
 								}
 							}
